@@ -98,3 +98,96 @@ def device_path(max_len=1024):
         st.lists(seg, min_size=1, max_size=5).map(lambda p: "/" + "/".join(p)),
         st.integers(1, max_len).map(lambda n: ("/" + "p" * n)[:n]),
     )
+
+
+# ------------------------------------------------------------------ whole sessions
+def chunk_size_for(maxdata_):
+    return min(65536, maxdata_ // 2) or 2048
+
+
+def boundary_sizes(m):
+    c = chunk_size_for(m)
+    return sorted(set(x for x in [0, 1, 2, c - 1, c, c + 1, 2 * c, 2 * c + 1, m - 9, m - 8, m - 7, m - 1, m, m + 1, int(3.5 * c), 3 * c - 8] if x >= 0))
+
+
+SHELL_CMDS = ["ls", "echo hi", "id", "getprop ro.x", "cat /proc/ü"]
+DEV_PATHS = ["/sdcard/a.bin", "/data/local/tmp/b", "/f", "/ü/文件.txt", "/missing"]
+DIR_PATHS = ["/sdcard", "/d", "/empty"]
+
+
+def small_chunks():
+    return st.lists(st.one_of(utf8ish().filter(len), st.binary(min_size=1, max_size=40)), min_size=0, max_size=4)
+
+
+@st.composite
+def session(draw, max_ops=5, ops_allowed=None, big=True, with_frag=False, with_wcap=False, fail_plans=False):
+    m = draw(maxdata())
+    sizes = boundary_sizes(m) if big else [0, 1, 2, 100, 2047, 2048, 2049, 5000]
+    files = {}
+    for p in DEV_PATHS[:4]:
+        if draw(st.booleans()):
+            files[p.encode()] = {"content": draw(content_spec(sizes=sizes)), "mode": draw(st.sampled_from([0o100644, 0o100755, 33206])),
+                                 "mtime": draw(u32())}
+    dirs = {}
+    for p in DIR_PATHS[:2]:
+        if draw(st.booleans()):
+            dirs[p.encode()] = draw(st.lists(st.tuples(u32(), u32(), u32(), st.binary(min_size=1, max_size=40)), min_size=0, max_size=6))
+    allowed = ops_allowed or ["shell", "exec_out", "streaming_shell", "root", "list", "stat", "pull", "push"]
+    n = draw(st.integers(1, max_ops))
+    ops = []
+    services = {}
+    total = 2000
+    for i in range(n):
+        kind = draw(st.sampled_from(allowed))
+        if kind in ("shell", "exec_out", "streaming_shell"):
+            cmd = draw(st.sampled_from(SHELL_CMDS)) + (" #%d" % i)
+            chunks = draw(small_chunks())
+            services[(b"exec:" if kind == "exec_out" else b"shell:") + cmd.encode()] = chunks
+            ops.append({"op": kind, "cmd": cmd, "decode": draw(st.booleans())})
+            total += sum(len(c) for c in chunks)
+        elif kind == "root":
+            services[b"root:"] = draw(small_chunks())
+            ops.append({"op": "root"})
+        elif kind == "list":
+            ops.append({"op": "list", "path": draw(st.sampled_from(DIR_PATHS))})
+        elif kind == "stat":
+            ops.append({"op": "stat", "path": draw(st.sampled_from(DEV_PATHS))})
+        elif kind == "pull":
+            path = draw(st.sampled_from(DEV_PATHS))
+            ops.append({"op": "pull", "path": path, "dest": "bytesio", "cb": draw(st.sampled_from([None, None, "rec", "raise"]))})
+            f = files.get(path.encode())
+            total += f["content"]["n"] if f else 0
+        else:
+            spec = draw(content_spec(sizes=sizes))
+            ops.append({"op": "push", "src": {"kind": "bytesio", "content": spec}, "path": draw(st.sampled_from(DEV_PATHS)),
+                        "mode": draw(st.sampled_from([0o100770, 0o100644, 0, 0o177777])), "mtime": draw(st.one_of(st.just(0), u32())),
+                        "cb": draw(st.sampled_from([None, None, "rec", "raise"]))})
+            total += spec["n"]
+    dev = {
+        "maxdata": m, "services": services, "fs": files, "dirs": dirs,
+        "rids": draw(rid_list()),
+        "cuts": draw(st.one_of(st.none(), st.lists(st.one_of(st.sampled_from([1, 2, 3, 7, 8, 9, 19, 20, 21, 4096, 65536, 65544]), st.integers(1, 200000)), min_size=1, max_size=6))),
+        "recv_sizes": draw(st.one_of(st.none(), st.lists(st.one_of(st.sampled_from([1, 2, 65535, 65536]), st.integers(1, 65536)), min_size=1, max_size=5))),
+        "lag": draw(st.lists(st.integers(0, 3), max_size=4)),
+        "eager_clse": draw(st.lists(st.booleans(), max_size=4)),
+        "dup_clse": draw(st.booleans()),
+        "zero_clse_reply": draw(st.booleans()),
+    }
+    if dev["cuts"] and total > 100000:
+        need = total // 20000 + 1
+        dev["cuts"] = [max(c, need) for c in dev["cuts"]]
+    if dev["recv_sizes"] and total > 100000:
+        need = total // 5000 + 1
+        dev["recv_sizes"] = [min(65536, max(c, need)) for c in dev["recv_sizes"]]
+    tr = {"flavour": draw(flavour())}
+    if with_frag:
+        tr["frag"] = tame_frag(draw(frag_tape()), total)
+    if with_wcap:
+        tr["wcap"] = draw(st.one_of(st.just([]), st.lists(st.one_of(st.sampled_from([1, 2, 23, 24, 25, 4096, 0]), st.integers(1, 100000)), min_size=1, max_size=6)))
+        if tr["wcap"] and total > 50000:
+            need = total // 20000 + 1
+            tr["wcap"] = [w if w == 0 else max(w, need) for w in tr["wcap"]]
+    return {
+        "api": draw(st.sampled_from(["sync", "async"])),
+        "device": dev, "dev_tape": draw(dev_tape(30)), "transport": tr, "connect": {}, "ops": ops,
+    }
